@@ -348,7 +348,7 @@ fn c15_judge(job: &HybJob, out: &RunOut) -> Vec<Complaint> {
         }
         latest.insert(wr.key, wr);
     }
-    for l in h.lookups.iter().filter(|l| l.kind == "after-restart") {
+    for l in h.lookups.iter().filter(|l| l.epoch > 0 && (l.kind == "after-restart" || l.kind == "final")) {
         let Some(wr) = latest.get(&l.key) else { continue };
         match wr.kind {
             WKind::Insert { loc: Loc::InMem, .. } => {
@@ -461,6 +461,8 @@ fn c15_jobs(tier: Tier) -> Vec<HybJob> {
         vec![HOp::Close],
         vec![HOp::Close, HOp::Close],
         vec![HOp::Close, HOp::Ins { k: 1, sz: 100, loc: Loc::Default }],
+        // drop without close: the last handle is dropped, the background close must flush
+        vec![HOp::Reopen],
     ];
     for woi in [true, false] {
         for foc in [true, false] {
@@ -477,14 +479,15 @@ fn c15_jobs(tier: Tier) -> Vec<HybJob> {
                     }
                     let mut prog = body.clone();
                     prog.extend(tail.iter().copied());
+                    let dropped = ti == 3;
                     for (policy, bound) in plan.iter() {
                         jobs.push(HybJob {
                             cfg: cfg.clone(),
                             prog: prog.clone(),
                             policy: *policy,
                             opts: RunOpts {
-                                final_reads: false,
-                                final_restart: true,
+                                final_reads: dropped,
+                                final_restart: !dropped,
                                 universe: vec![1, 2, 3],
                                 ..Default::default()
                             },
@@ -744,6 +747,9 @@ fn c06_jobs(tier: Tier) -> Vec<HybJob> {
         vec![g, get],
         vec![g, g, g],
         vec![get, get, g],
+        vec![get, g, get],
+        vec![g, get, g],
+        vec![get, g, get, g],
         vec![g, ins],
         vec![g, rm, g],
         vec![get, g, rm],
